@@ -5,7 +5,7 @@ import time
 
 from core import VERIF, AnalysisBroken
 
-EVIDENCE_DIR = os.path.join(VERIF, 'evidence')
+EVIDENCE_DIR = os.environ.get('RXVERIF_EVIDENCE_DIR') or os.path.join(VERIF, 'evidence')
 REPLAY_DIR = os.path.join(EVIDENCE_DIR, 'replay')
 KNOWN = os.path.join(VERIF, 'known_findings.json')
 
@@ -82,7 +82,7 @@ class Report:
     # ------------------------------------------------------------------ finishing
     def finish(self, explanation, checker_cmd=None, trusted_base=None, only=None):
         for rid, r in self.rules.items():
-            if r['count'] < r['min']:
+            if r['count'] < r['min'] and r['viol'] == 0:
                 self.broken.append('rule %s matched %d instances, fewer than the %d confirmed by hand on the pinned tree (anchor moved or rule vacuous)'
                                    % (rid, r['count'], r['min']))
         known = {'findings': [], 'fixed': []}
